@@ -21,7 +21,7 @@ Do(op, arg) ==
   /\ hist' = Append(hist, <<op, arg>>)
   /\ depth' = depth + 1 /\ UNCHANGED <<cfg, name>>
 Next == depth < MaxDepth /\
-        (Do("get", "none") \/ Do("del", "none") \/ Do("remove_trait", "none")
+        (Do("get", "none") \/ Do("del", "none") \/ Do("remove_trait", "none") \/ (st.itrait # "none" /\ Do("listen", "none"))
          \/ (\E v \in {"i5", "s"} : Do("set", v)) \/ (\E p \in AddPolicies : Do("add_trait", p))
          \/ (\E w \in {"f", "fo"} : ~Declared(cfg, PrefixOf(w)) /\ PrefixOf(w) \notin st.dyn /\ Do("add_wild", w)))
 Spec == Init /\ [][Next]_vars
